@@ -592,8 +592,11 @@ def run(ctx):
     n1 = ctx.pick(6, 7)
     shapes2 = ctx.pick("{<<2, 3>>, <<3, 4>>}", "{<<1, 4>>, <<2, 3>>, <<3, 2>>, <<3, 4>>, <<4, 4>>}")
     emcn = ctx.pick(8, 10)
-    jobs = [enumerate_cases(ctx, ["overlap"], n1, shapes2, emcn, "overlap"),
-            enumerate_cases(ctx, ["map"], n1, shapes2, emcn, "map_overlap"),
+    none2 = "{}"
+    jobs = [enumerate_cases(ctx, ["overlap"], n1, none2, emcn, "overlap-1d"),
+            enumerate_cases(ctx, ["overlap"], 0, shapes2, emcn, "overlap-2d"),
+            enumerate_cases(ctx, ["map"], n1, none2, emcn, "map_overlap-1d"),
+            enumerate_cases(ctx, ["map"], 0, shapes2, emcn, "map_overlap-2d"),
             enumerate_cases(ctx, ["trim", "swv", "emc"], n1, shapes2, emcn, "trim+sliding_window+ensure_minimum_chunksize")]
     parts = in_parallel([functools.partial(read_cases, ctx, j) for j in jobs])
     cases = [c for p in parts for c in p]
@@ -601,7 +604,7 @@ def run(ctx):
         if bad is not None:
             raise MachineryError("TLA+ reference disagrees with NumPy on %r: numpy=%r spec=%r" % (c["c"], bad, c["e"]))
     groups, chunkings, emc = group_cases(cases)
-    items, total, sampled = replay_cases(ctx, groups, chunkings, ctx.pick(8000, 10 ** 9), 1)
+    items, total, sampled = replay_cases(ctx, groups, chunkings, ctx.pick(8000, 60000), 1)
     for it in items[:3]:
         ctx.sample({"case": it[0], "run": it[2][0]})
     # ensure_minimum_chunksize: real results against the transcription (informative) and the contract (TLC decides)
@@ -609,7 +612,7 @@ def run(ctx):
     for r in recs:
         ctx.count(("emc", r["c"]), r["c"]["size"] > min(r["c"]["chunks"]))
     # code -> spec: random larger calls
-    for r in pmap(_record, random_runs(ctx, ctx.pick(500, 8000)), chunk=16):
+    for r in pmap(_record, random_runs(ctx, ctx.pick(500, 5000)), chunk=16):
         if "skip" in r:
             ctx.skip(r["skip"])
             continue
